@@ -179,8 +179,23 @@ def aligns(segs, path, params, ic):
         return False
     return go(0, 0)
 
-def erase_names(p):
-    return re.sub(rb'\{-?[^}:]*', b'{', p)
+def erase_names(p, ic=None):
+    """the pattern with every parameter name (and '-' flag) erased; None when the pattern is malformed"""
+    segs = split_pattern(p, ic or {})
+    if isinstance(segs, str) or not braces_ok(segs):
+        return None
+    out = b''
+    for s in segs:
+        out += s.value if s.kind == 'str' else b'{' + (b':' + s.rule if s.rule else b'') + b'}' + s.suffix
+    return out
+
+def braces_ok(segs):
+    """well-formed in the sense of the properties: balanced tokens, no braces in literal text, names or rules"""
+    for s in segs:
+        for part in ((s.value,) if s.kind == 'str' else (s.name, s.rule, s.suffix)):
+            if b'{' in part or b'}' in part:
+                return False
+    return True
 
 # ---------------------------------------------------------------- the abstract route table (L0)
 
@@ -412,6 +427,8 @@ def judge_c01(ops, impl):
         segs = split_pattern(pattern, r.ic)
         if isinstance(segs, str):
             bad.append((i, 'reported route %r is malformed (%s)' % (pattern, segs))); continue
+        if not braces_ok(segs):
+            continue      # literal text with braces: outside the property's well-formedness hypothesis
         want = {s.name for s in segs if s.kind != 'str' and not s.ignore}
         if set(params) != want:
             bad.append((i, 'parameters %r are not exactly the capturing parameters %r of %r' % (sorted(params), sorted(want), pattern))); continue
@@ -759,6 +776,8 @@ def judge_c10(ops, impl):
                 bad.append((i, 'empty pattern gives %r' % (obs,)))
             continue
         segs = split_pattern(pattern, {})
+        if not isinstance(segs, str) and not braces_ok(segs):
+            continue      # braces inside names / literal text: not a well-formed pattern
         if not strict:
             if not ps:
                 if got != dom + pattern:
@@ -776,6 +795,10 @@ def judge_c10(ops, impl):
                 bad.append((i, 'built %r, expected %r' % (obs, dom + want)))
         else:
             segs = split_pattern(pattern, r.ic)
+            if not isinstance(segs, str) and not braces_ok(segs):
+                continue
+            if any(isinstance(split_pattern(q, r.ic), str) or not braces_ok(split_pattern(q, r.ic)) for q in r.table):
+                continue  # the table contains ill-formed patterns; the tree may segment them differently
             live = pattern in r.table and not isinstance(segs, str)
             if not live:
                 if ok:
@@ -1104,10 +1127,11 @@ def judge_c17(ops, impl):
                     if len(set(ms)) != len(ms):
                         bad.append((i, 'method listed twice accepted: %r' % ms))
                     others = [p for p in r.table if p != pattern]
-                    if len(others) == 1 and len(r.table) == 1 and erase_names(others[0]) == erase_names(pattern) and not isinstance(split_pattern(pattern, r.ic), str):
+                    if len(others) == 1 and len(r.table) == 1 and erase_names(pattern, r.ic) is not None and erase_names(others[0], r.ic) == erase_names(pattern, r.ic):
                         bad.append((i, 'pattern %r differs from the only route %r in parameter names only, but was accepted' % (pattern, others[0])))
                 if r is not None and obs == 'reject:ambiguous':
-                    if not any(erase_names(p) == erase_names(pattern) for p in r.table):
+                    if erase_names(pattern, r.ic) is not None and all(erase_names(p, r.ic) is not None for p in r.table) and \
+                            not any(erase_names(p, r.ic) == erase_names(pattern, r.ic) for p in r.table):
                         bad.append((i, 'rejected as ambiguous although no live route is identical up to parameter names: %r vs %r' % (pattern, sorted(r.table)[:4])))
             continue
         if toks[0] in ('serve', 'routes') and int(toks[1]) in cur:
